@@ -346,6 +346,14 @@ class PythonTemplater(RawTemplater):
                         "variables? https://docs.sqlfluff.com/en/stable/"
                         "perma/variables.html".format(err)
                     )
+            except (ValueError, IndexError, TypeError, AttributeError) as err:
+                # Malformed or unsupported replacement fields, e.g. a lone "{",
+                # a positional "{}" or indexing into a value which doesn't
+                # support it.
+                raise SQLTemplaterError(
+                    "Failure in Python templating: {}. Is the file a valid "
+                    "Python format string?".format(err)
+                )
             return rendered_str
 
         raw_sliced, sliced_file, new_str = self.slice_file(
